@@ -122,6 +122,10 @@ def export_shapes():
            ("forall", [("y1", PS)], ("Equals", S("y1", PS), S("y2", PS))),
            ("Equals", ("Select", S("ap", ("ARRAY", INT, PS)), x), S("y2", PS)),
            ("Equals", ("fun", "mk", PS, (INT,), x), S("y2", PS))]
+    # two instances of one parametric sort: the sort is declared once
+    PI, PB = ("CUSTOM", "Pair1", (INT,)), ("CUSTOM", "Pair1", (BOOL,))
+    sh.append(("And", ("Equals", S("pi1", PI), S("pi2", PI)), ("Equals", S("pb1", PB), S("pb2", PB))))
+    sh.append(("Equals", ("Select", S("app", ("ARRAY", PI, PB)), S("pi1", PI)), S("pb1", PB)))
     sh.append(("Equals", S("my int", INT), ("Plus", S(".def_0", INT), S(".def_0", INT))))
     sh.append(("Equals", S("odd e", ("CUSTOM", "My Sort")), S("e3", ("CUSTOM", "My Sort"))))
     sh.append(("Equals", ("fun", "odd f", INT, (INT,), x), ("fun", "odd f", INT, (INT,), ("fun", "odd f", INT, (INT,), x))))
@@ -358,6 +362,10 @@ def import_corpus():
     add("bv-arith", BV + "(assert (= (bvadd u (bvmul v u)) (bvsub (bvneg u) (bvnot v))))")
     add("bv-div", BV + "(assert (and (= (bvudiv u v) (bvurem u v)) (= (bvsdiv u v) (bvsrem u v)) (= (bvsmod u v) u)))")
     add("bv-shift", BV + "(assert (and (= (bvshl u v) (bvlshr u v)) (= (bvashr u v) u)))")
+    add("quoted-numeral-symbol", "(declare-fun |1| () Int)(declare-fun x () Int)(assert (= x (+ 1 |1|)))")
+    add("quoted-numeral-symbol-unused", "(declare-fun x () Int)(declare-fun |2| () Int)(assert (= x (+ 1 2)))")
+    add("quoted-bv-literal-symbol", "(declare-fun |#b01| () Bool)(declare-fun u2 () (_ BitVec 2))(assert (or |#b01| (= u2 #b01)))")
+    add("quoted-string-like-symbol", "(declare-fun |abc| () String)(declare-fun st () String)(assert (= st (str.++ abc \"abc\")))")
     add("shared-across-asserts", D + "(assert (and (or a b) (< (+ x y) z)))(assert (or (or a b) (< (+ x y) 3)))"
         "(push 1)(assert (not (< (+ x y) z)))(check-sat)")
     add("bv-logic", BV + "(assert (= (bvand u (bvor v (bvxor u v))) (bvnand u (bvnor v (bvxnor u v)))))")
@@ -619,6 +627,8 @@ MAY_REJECT = {"nary-minus": "n-ary minus is not implemented (assertion)", "chain
               "bv-rotate-beyond-width": "rotation by more than the width is rejected by the type checker",
               "str-ops-new-names": "SMT-LIB 2.6 spellings str.to_int / str.from_int are not in the token table",
               "crlf": "carriage return is not white space for the tokeniser",
+              "quoted-bv-literal-symbol": "a quoted symbol spelled like a literal shadows the literal (F-C08-3); here the "
+                                          "shadowed occurrence is ill-sorted, so the script is rejected with an error",
               "named-term": "a :named term cannot be referred to by its name (the name is read as an unknown token)"}
 LENIENT = {"assert-non-bool": "assert of a non-Boolean term is recorded as written",
            "redeclaration": "an identical redeclaration is idempotent",
